@@ -29,6 +29,8 @@ fn limit_of(v: &Value) -> usize {
         -3 => usize::MAX,
         -4 => usize::MAX / 4,
         -5 => usize::MAX / 4 + 1,
+        -6 => usize::MAX / 2,
+        -7 => (isize::MAX as usize) / 4 + 1,
         n => n as usize,
     }
 }
@@ -43,7 +45,7 @@ pub fn run_history(out: &mut Out, bytes: &[u8], calls: &[Value]) {
             "id" => d.id().map(jw),
             "bit32" => d.bit32().map(jw),
             "ext_inst_integer" => d.ext_inst_integer().map(jw),
-            "words" => d.words(call[1].as_u64().unwrap() as usize).map(|ws| jws(&ws)),
+            "words" => d.words(limit_of(&call[1])).map(|ws| jws(&ws)),
             "bit64" => d.bit64().map(|v| json!([jw(v as u32), jw((v >> 32) as u32)])),
             "string" => d.string().map(|s| jbytes(s.as_bytes())),
             "typed" => decode_typed(&mut d, call[1].as_str().unwrap()).map(jw),
@@ -78,7 +80,8 @@ fn random_history(rng: &mut Rng) -> (Vec<u8>, Vec<Value>) {
         let c = match rng.below(20) {
             0..=3 => json!(["word"]),
             4 => json!([*rng.pick(&["id", "bit32", "ext_inst_integer"])]),
-            5 | 6 => json!(["words", rng.below(5)]),
+            5 => json!(["words", rng.below(5)]),
+            6 => json!(["words", if rng.chance(1, 3) { *rng.pick(&[-3i64, -4, -5, -6, -7]) } else { rng.below(20) as i64 }]),
             7 | 8 => json!(["bit64"]),
             9..=12 => json!(["string"]),
             13 | 14 => json!(["typed", *rng.pick(TYPED_KINDS)]),
@@ -99,10 +102,44 @@ fn random_history(rng: &mut Rng) -> (Vec<u8>, Vec<Value>) {
     (bytes, calls)
 }
 
+/// every declared value of every typed kind (and its neighbours) decoded through the typed request
+fn typed_sweep(out: &mut Out, grammar: &str) -> usize {
+    let g: Value = serde_json::from_reader(std::fs::File::open(grammar).expect("grammar")).expect("grammar json");
+    let mut n = 0;
+    for kind in TYPED_KINDS {
+        let k = &g["kinds"][*kind];
+        let mut vals: Vec<u32> = vec![0, 1, 0xffff_ffff, 0x8000_0000];
+        if let Some(vs) = k["values"].as_object() {
+            for key in vs.keys() {
+                let v: u32 = if let Some((h, l)) = key.split_once(':') { (h.parse::<u32>().unwrap() << 16) | l.parse::<u32>().unwrap() } else { key.parse().unwrap() };
+                vals.extend([v, v.wrapping_add(1), v.wrapping_sub(1)]);
+            }
+        }
+        if let Some(bits) = k["bits"].as_array() {
+            let all = unw(&k["all"]);
+            vals.push(all);
+            vals.push(!all);
+            for b in bits { let v = unw(&b["bit"]); vals.extend([v, v << 1, v >> 1, all & !v]); }
+            for b in 0..32 { vals.push(1u32 << b); }
+        }
+        vals.sort(); vals.dedup();
+        for chunk in vals.chunks(8) {
+            let bytes: Vec<u8> = chunk.iter().flat_map(|w| w.to_le_bytes()).collect();
+            let calls: Vec<Value> = chunk.iter().map(|_| json!(["typed", kind])).collect();
+            run_history(out, &bytes, &calls);
+            n += 1;
+        }
+    }
+    n
+}
+
 pub fn drive(args: &[String]) {
     let out_path = arg(args, "--out").expect("--out");
     let mut out = Out::create(out_path);
     let mut histories = 0usize;
+    if let Some(g) = arg(args, "--typed-sweep") {
+        histories += typed_sweep(&mut out, g);
+    }
     if let Some(h) = arg(args, "--histories") {
         let f = std::io::BufReader::new(std::fs::File::open(h).expect("histories"));
         for line in f.lines() {
